@@ -230,10 +230,13 @@ class C18(Property):
         base = {"method": "POST", "path": "/a", "query": "x=1", "body": "hello", "aeskey": k16, "fp": "A", "rsa": "A",
                 "hdr": "normal", "resp": "world"}
 
-        def cs(strict=True, tol=100, keys=("A",), wrap=False, **kw):
+        def cs(strict=True, tol=100, keys=("A",), wrap=False, limit=None, **kw):
             r = dict(base)
             r.update(kw)
-            return {"kind": "cs", "strict": strict, "tol": tol, "keys": list(keys), "req": r, "wrap": wrap}
+            c = {"kind": "cs", "strict": strict, "tol": tol, "keys": list(keys), "req": r, "wrap": wrap}
+            if limit is not None:
+                c["limit"] = limit
+            return c
 
         def jr(**kw):
             r = {"now": 1000, "auth": "bearer", "header": hs, "payload": pay, "signkey": "s1", "signalg": "HS256"}
@@ -266,6 +269,16 @@ class C18(Property):
             # unknown length
             {"kind": "crypt", "req": dict(base, enc=True, chunked=True)},
             cs(enc=True, chunked=True),
+            # the size limit at its boundary for a body of UNKNOWN length (mutation sweep m042: LimitReader(limit - 1)):
+            # wire = 24 characters (one AES block); limit = wire: decrypted; wire - 1: 400; wire + 1: decrypted
+            {"kind": "crypt", "req": dict(base, enc=True, chunked=True), "limit": 24},
+            {"kind": "crypt", "req": dict(base, enc=True, chunked=True), "limit": 23},
+            {"kind": "crypt", "req": dict(base, enc=True, chunked=True), "limit": 25},
+            {"kind": "crypt", "req": dict(base, enc=True), "limit": 24}, {"kind": "crypt", "req": dict(base, enc=True), "limit": 23},
+            cs(enc=True, chunked=True, limit=24), cs(enc=True, chunked=True, limit=23),
+            self._big(16, 5, 5, chunked=True, limit=24), self._big(17, 5, 5, chunked=True, limit=23),
+            self._big(18, 32768, 5, chunked=True, limit=43712), self._big(19, 32768, 5, chunked=True, limit=43711),
+            self._big(20, 32768, 5, limit=43712), self._big(21, 40000, 16, via="cs", chunked=True, limit=53356),
             # seeded/C18-2 by construction: a header correctly signed for an EMPTY body, a chunked body appended to it
             cs(enc=False, chunked=True, sbody="", body="appended by a man in the middle"),
             cs(enc=False, chunked=True, sbody="", body="x", method="PUT"),
